@@ -63,6 +63,14 @@ def r1_only_invalid_params(ctx):
     has = any(st["s"] == "assign" and st["rv"]["k"] == "agg" and st["rv"].get("variant") == "InvalidParams" for blk in ip.blocks for st in blk["st"])
     others = [st["rv"]["variant"] for blk in ip.blocks for st in blk["st"] if st["s"] == "assign" and st["rv"]["k"] == "agg" and st["rv"].get("adt", "").endswith("ErrorCode") and st["rv"]["variant"] != "InvalidParams"]
     R.check(has and not others, "C16.R1", "invalid_params:code", "invalid_params uses ErrorCode::InvalidParams (-32602)", "invalid_params uses %s" % (others or "no ErrorCode::InvalidParams"), "%s:%d" % (ip.file, ip.lo))
+    # panic-capable string surgery: exactly the two sanctioned slicings of next_inner, nothing in the error constructor
+    SURGERY = r"impl std::ops::Index<I> for str>::index$|impl std::ops::IndexMut<I> for str>::index_mut$|String::truncate$|str>::split_at$|String::remove$|String::drain$|String::replace_range$|String::insert$|String::insert_str$|String::split_off$"
+    SANCTIONED = {"next_inner": (2, "`&json[1..]` after a one-byte ASCII token and `json[byte_offset..]` at serde_json's value boundary: both on char boundaries by construction")}
+    for name, pat in list(FNS.items()) + [("invalid_params", r"^jsonrpsee_types::params::invalid_params$")]:
+        b = F.one(pat)
+        hits = [c for x in F.nested(b) for c in x.calls if re.search(SURGERY, c.name() or "") and not c.exp]
+        allowed = SANCTIONED.get(name, (0, ""))[0]
+        R.check(len(hits) <= allowed, "C16.R1", "%s:no-new-string-surgery" % name, "%s performs %d panic-capable string operations (sanctioned: %d)" % (name, len(hits), allowed), "%s performs a panic-capable string operation on decoded input / error text (%s): on a char boundary mismatch it panics instead of reporting -32602" % (name, sorted({short(c.name()) for c in hits})), where(hits[-1]) if hits else None)
     # one = parse::<[T;1]>
     one = F.one(FNS["one"])
     R.check(bool(one.calls_to(r"Params::<'a>::parse$")), "C16.R1", "one-via-parse", "one() is parse::<[T; 1]>()", "Params::one no longer goes through parse", "%s:%d" % (one.file, one.lo))
